@@ -126,6 +126,8 @@ def c12_r2(ctx):
     sites = err_sites(ctx.P, "TargetMissing")
     ctx.need(sites, "TargetMissing construction")
     for f, (bb, idx, rv, pl) in sites:
+        if bb not in f.live:
+            continue        # (the goal arm of a shared helper, inlined into the build-all entry)
         ctx.saw(f)
         ctx.inst("TargetMissing", f.where(bb, idx))
         gets = [g for g in calls(f, HM_GET) if all(o[0][0] == "param" for o in f.origins_of_operand(g.args[1]))]
@@ -151,6 +153,10 @@ def c12_r2(ctx):
             io = f.origins_of_operand(c.args[1])
             so_ = f.origins_of_operand(c.args[2])
             if io != {p + (("field", 0),) for p in pay} or so_ != {p + (("field", 1),) for p in pay}:
+                walked = [o for o in io | so_ if any(st[0] == "next" for st in o[1:])]
+                if walked and all(o[0][0] == "call" and ("vec" in o[0][3].lower() or o[0][3].endswith("::collect")) for o in walked):
+                    # the starting points are first put into a collection and then walked
+                    raise AnalysisError("idiom not recognised: %s hands the search its starting point through a collection" % f.id)
                 foreign = True
                 ctx.viol((f.id, "sort-start-foreign"), "the sort does not start at the goal's own rule / target index", c.where)
         if not foreign:
